@@ -95,6 +95,14 @@ func (f *Frag) instMD() string {
 // library computed for it): it is stored through an undef pointer.
 func (f *Frag) Use(t, r string) {
 	f.Line("store %s %s, %s* undef", t, r, t)
+	// ... and it is fed to an instruction that takes ITS result type from the operand type
+	// spelled in the text (freeze), whose result is observed in turn: a parser that attaches a
+	// wrong type to r prints another operand type, and the second parse types the chain
+	// differently (print is no longer a fixpoint).
+	f.nuse++
+	u := fmt.Sprintf("%%u%d", f.nuse)
+	f.Line("%s = freeze %s %s", u, t, r)
+	f.Line("store %s %s, %s* undef", t, u, t)
 }
 
 // MDID allocates a module-unique metadata ID for the fragment.
